@@ -6,8 +6,15 @@ use curve25519_dalek::ristretto::RistrettoPoint;
 use merlin::Transcript;
 use serde_json::json;
 use tari_bulletproofs_plus::{
+    errors::ProofError,
+    range_parameters::RangeParameters,
     range_proof::{RangeProof, VerifyAction},
     range_statement::RangeStatement,
+};
+
+const CTX_B: Ctx = Ctx {
+    label: b"ctx-b",
+    msg: Some(b"m1"),
 };
 
 use crate::{
@@ -17,64 +24,171 @@ use crate::{
     fg::{self, F},
 };
 
+/// witness for aggregation `mm` (the seed only where recovery is defined)
+fn wit_of(n: usize, mm: usize, c: usize, d: usize) -> (Cfg, Wit) {
+    let cfg = Cfg::new(n, mm, c, d);
+    let mut w = Wit::default_for(&cfg);
+    if mm == 1 {
+        w.seed = Some(seed_scalar(2));
+    }
+    (cfg, w)
+}
+
+/// aggregation sizes other than `m` that a parameter object of capacity `c` can also serve: the smallest and the largest
+fn other_sizes(m: usize, c: usize) -> Vec<usize> {
+    let mut v = vec![1usize, c];
+    v.dedup();
+    v.retain(|x| *x != m);
+    v
+}
+
+fn built_on<P: G>(params: &RangeParameters<P>, wit: &Wit) -> Result<Built<P>, ProofError> {
+    let commitments = commitments_for(params.pc_gens(), wit)?;
+    let statement = P::statement(params.clone(), commitments.clone(), wit.promises.clone(), wit.seed)?;
+    Ok(Built {
+        params: params.clone(),
+        statement,
+        witness: witness_for(wit)?,
+        commitments,
+    })
+}
+
+/// One (c_p, c_v) pair. Every parameter object is made inside the case, so what an object was used for before the call under
+/// judgement is part of the case (a *use history*), not an accident of which case ran first:
+///   baseline  prove and verify at the minimal capacity c = m on objects nothing else touches (if that fails the question
+///             "does capacity matter" cannot be asked: skipped, C01 owns it)
+///   fresh     prove on a fresh c_p object, verify on a fresh c_v object
+///   v-used    the c_v object first verifies a valid proof of another aggregation size (smallest / largest it can serve)
+///   p-used    the c_p object first proves another aggregation size
 fn pair_case<P: G>(n: usize, m: usize, d: usize, cp: usize, cv: usize) -> Box<dyn Case> {
     case(format!("{}/n={},m={},d={}/c_p={},c_v={}", P::NAME, n, m, d, cp, cv), move |_v| {
         fg::clear_intern();
         let mut res = CaseResult::new("accepted");
-        let cfg_p = Cfg::new(n, m, cp, d);
-        let cfg_v = Cfg::new(n, m, cv, d);
-        let mut wit = Wit::default_for(&cfg_p);
-        if m == 1 {
-            wit.seed = Some(seed_scalar(2));
-        }
-        let prover = build_cached::<P>(&cfg_p, &wit).honest();
-        let verifier = build_cached::<P>(&cfg_v, &wit).honest();
-        let proof = match lib_prove(&prover, &CTX_A, &mut HRng::chacha(3)) {
+        let (cfg_b, wit) = wit_of(n, m, m, d);
+        let base = build::<P>(&cfg_b, &wit).honest();
+        let proof_b = match lib_prove(&base, &CTX_A, &mut HRng::chacha(3)) {
             Ok(p) => p,
             Err(_) => {
-                res.outcome = "prover-refused(skipped)".into();
+                res.outcome = "prover-refused-at-minimal-capacity(skipped)".into();
                 return res;
             },
         };
         res.executions += 1;
-        for mode in [VerifyAction::VerifyOnly, VerifyAction::RecoverAndVerify] {
-            // the verdict under the prover's own capacity is the baseline: capacity independence is differential
-            let own = verify_observed_one(&prover.statement, &proof, &CTX_A, mode);
-            if !own.is_ok() {
-                res.outcome = "not-accepted-under-own-capacity(skipped)".into();
-                continue;
+        let base_obs = [VerifyAction::VerifyOnly, VerifyAction::RecoverAndVerify].map(|mode| verify_observed_one(&base.statement, &proof_b, &CTX_A, mode));
+        if !base_obs.iter().all(|o| o.is_ok()) {
+            res.outcome = "not-accepted-at-minimal-capacity(skipped)".into();
+            return res;
+        }
+        let fresh = |c: usize| P::params(n, c, P::pc_gens(d)).honest();
+        // a valid proof of aggregation size mm, made at ITS minimal capacity, to be presented to another object
+        let other_proof = |mm: usize| -> Option<(Wit, RangeProof<P>)> {
+            let (cfg_o, wit_o) = wit_of(n, mm, mm, d);
+            let b = build::<P>(&cfg_o, &wit_o).ok()?;
+            let p = lib_prove(&b, &CTX_B, &mut HRng::chacha(5)).ok()?;
+            Some((wit_o, p))
+        };
+        let mut judge = |res: &mut CaseResult, history: &str, st: &RangeStatement<P>, proof: &RangeProof<P>| {
+            for (k, mode) in [VerifyAction::VerifyOnly, VerifyAction::RecoverAndVerify].into_iter().enumerate() {
+                let obs = verify_observed_one(st, proof, &CTX_A, mode);
+                res.executions += 1;
+                res.validated += 1;
+                res.transitions += 1;
+                match (&obs.result, &base_obs[k].result) {
+                    (Some(Ok(masks)), Some(Ok(base_masks))) => {
+                        // differential: what is recovered under another capacity is what is recovered at the minimal one
+                        // (whether that is the right mask is C09's question)
+                        if masks != base_masks {
+                            res.violate(
+                                format!("{}/{}", history, mode_name(mode)),
+                                "mask recovered under another capacity differs from the mask recovered at the minimal capacity",
+                            );
+                        }
+                    },
+                    _ => {
+                        res.outcome = "rejected".into();
+                        res.violate(
+                            format!("{}/{}", history, mode_name(mode)),
+                            format!(
+                                "proof made with capacity {} rejected by a verifier with capacity {} (use history: {}; at capacity {} the same witness is proved and accepted): {}",
+                                cp,
+                                cv,
+                                history,
+                                m,
+                                obs.describe()
+                            ),
+                        );
+                    },
+                }
             }
-            let obs = verify_observed_one(&verifier.statement, &proof, &CTX_A, mode);
-            res.executions += 1;
-            res.validated += 1;
-            match &obs.result {
-                Some(Ok(masks)) => {
-                    if mode == VerifyAction::RecoverAndVerify && m == 1 && masks[0].as_ref() != Some(&wit.blindings[0]) {
-                        res.violate(mode_name(mode), "mask recovered under another capacity differs from the blinding vector");
-                    }
+        };
+        // fresh objects
+        let pp = fresh(cp);
+        let prover = built_on::<P>(&pp, &wit).honest();
+        let proof = match catch(|| lib_prove(&prover, &CTX_A, &mut HRng::chacha(3))) {
+            Ok(Ok(p)) => p,
+            other => {
+                res.outcome = "prover-refused".into();
+                res.violate(
+                    "fresh/prove",
+                    format!("the prover refuses at capacity {} what it proves at capacity {}: {}", cp, m, match other { Ok(Err(e)) => format!("{:?}", e), Err(p) => format!("PANIC({})", p), _ => String::new() }),
+                );
+                return res;
+            },
+        };
+        *res.outcome_counter(if P::to_bytes(&proof) == P::to_bytes(&proof_b) { "proof-bytes-equal-to-minimal-capacity-proof" } else { "proof-bytes-differ-from-minimal-capacity-proof" }) += 1;
+        let vv = fresh(cv);
+        let verifier = built_on::<P>(&vv, &wit).honest();
+        judge(&mut res, "fresh", &verifier.statement, &proof);
+        // the verifier's object has served another aggregation size before
+        for mm in other_sizes(m, cv) {
+            let Some((wit_o, proof_o)) = other_proof(mm) else { continue };
+            let vv = fresh(cv);
+            let pre = built_on::<P>(&vv, &wit_o).honest();
+            let _ = verify_observed_one(&pre.statement, &proof_o, &CTX_B, VerifyAction::VerifyOnly);
+            let verifier = built_on::<P>(&vv, &wit).honest();
+            judge(&mut res, &format!("verifier-object-first-verified-m={}", mm), &verifier.statement, &proof);
+        }
+        // the prover's object has served another aggregation size before
+        for mm in other_sizes(m, cp) {
+            let (_, wit_o) = wit_of(n, mm, cp, d);
+            let pp = fresh(cp);
+            let Ok(pre) = built_on::<P>(&pp, &wit_o) else { continue };
+            let _ = catch(|| lib_prove(&pre, &CTX_B, &mut HRng::chacha(5)));
+            let prover = built_on::<P>(&pp, &wit).honest();
+            match catch(|| lib_prove(&prover, &CTX_A, &mut HRng::chacha(3))) {
+                Ok(Ok(p)) => {
+                    let vv = fresh(cv);
+                    let verifier = built_on::<P>(&vv, &wit).honest();
+                    judge(&mut res, &format!("prover-object-first-proved-m={}", mm), &verifier.statement, &p);
                 },
-                _ => {
-                    res.outcome = "rejected".into();
+                other => {
+                    res.outcome = "prover-refused".into();
                     res.violate(
-                        mode_name(mode),
-                        format!("proof made with capacity {} rejected by a verifier with capacity {}: {}", cp, cv, obs.describe()),
+                        format!("prover-object-first-proved-m={}/prove", mm),
+                        format!("the prover refuses at capacity {} (object used before for aggregation {}) what it proves at capacity {}: {}", cp, mm, m, match other { Ok(Err(e)) => format!("{:?}", e), Err(p) => format!("PANIC({})", p), _ => String::new() }),
                     );
                 },
             }
         }
         // generator j of party i is the same point whatever capacity was requested
-        let (gp, hp) = (P::gi_vec(&prover.params), P::hi_vec(&prover.params));
-        let (gv, hv) = (P::gi_vec(&verifier.params), P::hi_vec(&verifier.params));
-        let common = n * cp.min(cv);
+        // (how MANY generators an object exposes is C11's question; here every position both objects expose is compared)
+        let pp = fresh(cp);
+        let vv = fresh(cv);
+        let (gp, hp) = (P::gi_vec(&pp), P::hi_vec(&pp));
+        let (gv, hv) = (P::gi_vec(&vv), P::hi_vec(&vv));
+        if gp.len() != n * cp || gv.len() != n * cv || hp.len() != n * cp || hv.len() != n * cv {
+            res.binding_note("generators", "a parameter object exposes a number of vector generators other than bits*capacity (C11 owns this)");
+        }
+        let common = (n * cp.min(cv)).min(gp.len()).min(gv.len()).min(hp.len()).min(hv.len());
         res.validated += 1;
-        if gp.len() != n * cp || gv.len() != n * cv || gp[..common] != gv[..common] || hp[..common] != hv[..common] {
+        if gp[..common] != gv[..common] || hp[..common] != hv[..common] {
             let first = (0..common).find(|i| gp.get(*i) != gv.get(*i) || hp.get(*i) != hv.get(*i));
             res.violate(
                 "generators",
                 format!("vector generators depend on the requested capacity (first difference at flat index {:?}, i.e. party {:?})", first, first.map(|i| i / n)),
             );
         }
-        res.sample = Some(json!({"n": n, "m": m, "d": d, "c_p": cp, "c_v": cv}));
+        res.sample = Some(json!({"n": n, "m": m, "d": d, "c_p": cp, "c_v": cv, "histories": ["fresh", "verifier-object-first-verified-m=*", "prover-object-first-proved-m=*"]}));
         res
     })
 }
